@@ -49,6 +49,17 @@ class SchedWorld(World):
         self.loop.run_to_quiescence()
         self.after_step()
 
+    def _uuid_counter(self) -> Any:
+        """Counter of the world that is currently running (several worlds may be alive)."""
+        from asyncio import events
+
+        loop = events._get_running_loop()
+        if not hasattr(loop, "uuid_counter"):
+            import itertools
+
+            loop.uuid_counter = itertools.count()  # type: ignore[attr-defined]
+        return loop.uuid_counter  # type: ignore[attr-defined]
+
     # absolute time in microseconds since BASE
     def t_abs(self) -> int:
         return self.sc.get("start_us", 0) + self.loop._vt_us
@@ -100,6 +111,22 @@ class SchedWorld(World):
 
         broker = B()
         self.broker = broker
+        # ids are the only randomness in the scheduler path: script them per world so that
+        # two replays of one schedule are identical (LabelScheduleSource draws a fresh
+        # schedule_id per listed entry and poll, the kicker a task id per send)
+        import itertools
+        import types
+
+        import taskiq.scheduler.scheduled_task.v2 as _v2
+
+        ids = itertools.count()
+        broker.id_generator = lambda: f"task-{next(ids)}"
+
+        class _U:
+            def __init__(self, n: int) -> None:
+                self.hex = f"sched{n:08d}"
+
+        _v2.uuid = types.SimpleNamespace(uuid4=lambda: _U(next(world._uuid_counter())))
 
         class ListSource(ScheduleSource):
             def __init__(self, idx: int, spec: Dict[str, Any]) -> None:
